@@ -141,6 +141,8 @@ def _case(draw: Any, pid: str, max_depth: int) -> dict[str, Any]:
         # style "random": a sub-expression is wrapped in (redundant) parentheses where its bit is set, so that groups
         # nest to any depth next to un-parenthesised operators
         "paren_bits": draw(st.lists(st.booleans(), min_size=7, max_size=7)),
+        # str(engine) is called: never / before the engine starts / after the first timestamp / both
+        "show": draw(st.sampled_from([0, 0, 1, 2, 3])),
         "ws": draw(st.lists(st.sampled_from(["", " ", "  ", "\t", "\n"]), min_size=4, max_size=4)),
         "zeros": draw(st.lists(st.booleans(), min_size=NSTREAMS, max_size=NSTREAMS)) if pid == "C13"
         else [False] * NSTREAMS,
@@ -559,9 +561,15 @@ def run_case(case: Any, pid: str) -> Verdict:
                 for n, val in enumerate(early[i]):
                     ts_early = world.T0 - timedelta(seconds=len(early[i]) - n)
                     await rig.senders[i].send(Sample(ts_early, _sample_value(val)))
+        # printing a formula is an observation: it must not change what the formula computes
+        show = case.get("show", 0)
+        if show in (1, 3):
+            str(rig.engine)
         rx = rig.engine.new_receiver()
         await world.settle(2)
         for k, row in enumerate(case["rows"]):
+            if k == 1 and show in (2, 3):
+                str(rig.engine)
             ts = world.T0 + timedelta(seconds=k)
             for i in sorted(rig.senders):
                 if route == "api3":
@@ -592,6 +600,8 @@ def run_case(case: Any, pid: str) -> Verdict:
         v.labels.add("precedence_interaction")
     if any(len(case.get("early", [[]] * NSTREAMS)[i]) for i in used) and route != "api3":
         v.labels.add("staggered_start")
+    if case.get("show"):
+        v.labels.add("formula_printed_before_or_while_running")
         if len({len(case["early"][i]) for i in used}) > 1 and any(
                 isinstance(x, str) for i in used for x in case["early"][i]):
             v.labels.add("missing_value_in_skipped_sample")
